@@ -24,7 +24,7 @@ CHECKS = {
         design_ref="DESIGN.md 6/C01", note=TRUST),
     "C02": dict(
         technique="runtime monitoring: differential oracle - every recorded result of the real code compared byte-for-byte with an independent executable RFC 9180 (both directions)",
-        text="Exploration with an independent reference: all 48 suites x 4 modes, impl-as-sender under scripted RNG bytes and reference-as-sender transcripts, both single-shot forms, argument-aliasing sessions (info = psk_id, randomness that derives a key already in play, enc = pkR, ...), length sweeps 0..2200 of exporter context / info / psk / psk_id / aad, 300-message (thorough 70 000) sessions; on the overflow-checked and the release build (thorough: also at opt-level 0, 1, s, z and with target-cpu=native, and with info / psk / psk_id / exporter context / ikm strings of 2^32+5 bytes). Any symmetric change to labels, ids, orders, mode bytes or nonce layout shows up as a byte difference. The reference is anchored on published vectors at the start of each run.",
+        text="Exploration with an independent reference: all 48 suites x 4 modes, impl-as-sender under scripted RNG bytes and reference-as-sender transcripts, both single-shot forms, argument-aliasing sessions (info = psk_id, randomness that derives a key already in play, enc = pkR, ...), length sweeps 0..2200 of exporter context / info / psk / psk_id / aad, 300-message (thorough 70 000) sessions; on the overflow-checked and the release build and two mixed configurations (thorough: the pairwise covering set of build configurations, also at opt-level 0, 1, s, z and with target-cpu=native, and with info / psk / psk_id / exporter context / ikm strings of 2^32+5 bytes). Any symmetric change to labels, ids, orders, mode bytes or nonce layout shows up as a byte difference. The reference is anchored on published vectors at the start of each run.",
         design_ref="DESIGN.md 3, 6/C02", note=TRUST),
     "C03": dict(
         technique="runtime monitoring: differential oracle for the KEM layer (DeriveKeyPair/GenerateKeyPair/Encap/Decap/Auth variants) against the reference, with directed rare-event inputs",
@@ -32,7 +32,7 @@ CHECKS = {
         design_ref="DESIGN.md 6/C03", note=TRUST + " With the KEM's own hash the P-384/P-521 retry path is unreachable (p < 2^-190); it is exercised with a KDF other than the KEM's."),
     "C04": dict(
         technique="runtime monitoring: abstract state machine (counter + latch) stepped in lock-step with the real sender context; every ciphertext recomputed with OpenSSL under the model's nonce; sort-based nonce-reuse detector over bursts",
-        text="Exploration of the 2^64 counter space by structure: a full prefix (2^20 quick / 2^24 thorough seals per AEAD) for uniqueness, every byte-carry boundary, the last values before and after exhaustion, seeded random positions, arbitrary call histories on dead contexts; thorough: 64.5 GiB through one context per AEAD and the raw-key workload interpreted by Miri for a 32-bit (i686), a big-endian (s390x) and a non-x86 little-endian (aarch64) target, and positions at opt-level 0, 1, s, z and target-cpu=native. Seals that fail (SealError) are driven with a mock AEAD implementing the crate's public Aead trait whose tag echoes the nonce: a failed seal must not consume a sequence number. Contexts are built from raw key material through a cfg(hpke_verif) hook so the monitor does not depend on the key schedule.",
+        text="Exploration of the 2^64 counter space by structure: a full prefix (2^20 quick / 2^24 thorough seals per AEAD) for uniqueness, every byte-carry boundary, the last values before and after exhaustion, seeded random positions, arbitrary call histories on dead contexts; thorough: 64.5 GiB through one context per AEAD and the raw-key workload interpreted by Miri for a 32-bit (i686), a big-endian (s390x) and a non-x86 little-endian (aarch64) target, and positions at opt-level 0, 1, s, z and target-cpu=native. Seals that fail (SealError) are driven with mock AEADs implementing the crate's public Aead trait (nonce sizes 12, 24 and 8 bytes) whose tag echoes the nonce: a failed seal must not consume a sequence number or set the latch, also exactly at 2^64-1, and the counter sits in the last 8 bytes of a nonce of any size. Mixed build configurations (no-alloc + panic=abort + opt-level s + native CPU; std + panic=abort + opt-level z) every time, a pairwise covering set of 15 configurations in the thorough tier. Contexts are built from raw key material through a cfg(hpke_verif) hook so the monitor does not depend on the key schedule.",
         design_ref="DESIGN.md 6/C04", note=TRUST + " Positions beyond the burst prefix are reached with the set_seq hook."),
     "C05": dict(
         technique="runtime monitoring: offline checker of recorded delivery histories against an abstract receiver model (position + latch); acceptance decided from recorded bytes only",
@@ -72,7 +72,7 @@ CHECKS = {
         design_ref="DESIGN.md 5, 6/C13", note=TRUST + " Sanitizers see only code the workload reaches."),
     "C14": dict(
         technique="runtime monitoring: differential oracle inside one session - single-shot vs composed calls under identical scripted RNG bytes, allocating vs in-place forms on twin contexts",
-        text="Exploration: 144 cells, success paths with boundary lengths and every failure path (small-order/invalid enc or pkR, wrong key, wrong info/aad, flipped and short tags, short ciphertexts).",
+        text="Exploration: 144 cells, success paths with boundary lengths and every failure path (small-order/invalid enc or pkR, wrong key, wrong info/aad, flipped and short tags, short ciphertexts, two causes at once, empty PSK bundle, export-only suites, and a seal that fails inside the AEAD - driven with a mock AEAD through the public trait).",
         design_ref="DESIGN.md 6/C14", note=TRUST),
     "C15": dict(
         technique="runtime monitoring: validation oracle for PskBundle::new plus reference comparison with hypothesis-based attribution (swapped / dropped psk or psk_id, mode byte) before a mismatch is reported",
@@ -88,6 +88,6 @@ CHECKS = {
         design_ref="DESIGN.md 6/C17", note=TRUST, category="exploration"),
     "C18": dict(
         technique="runtime monitoring + race detection: per-session transcripts under permuted, interleaved, threaded, migrating placements on alloc, std and no-alloc builds compared with the sequential run; history probes; shared-reference exports, shared and reused key objects, decapsulation storms; hang analysis; ThreadSanitizer (thorough: Miri); compile-time Send+Sync probe",
-        text="Exploration of placements with schedule evidence (threads used, session switches, distinct global orders observed); a run whose parallel placements never overlapped is inconclusive. Process-level dependencies: every session on a 64 KiB-stack thread; an RNG that itself uses the library (key generation + round trip) before every draw; sessions in a driver that creates no thread, traced with strace (any clone with CLONE_THREAD is the library's), and a round trip made from a thread-local destructor while its thread exits.",
+        text="Exploration of placements with schedule evidence (threads used, session switches, distinct global orders observed); a run whose parallel placements never overlapped is inconclusive. Process-level dependencies: every session on a 64 KiB-stack thread; an RNG that itself uses the library (key generation + round trip) before every draw; a round trip from a destructor while a panic unwinds; thorough: 2^32 private-key objects constructed in one process before fresh keys are used; sessions in a driver that creates no thread, traced with strace (any clone with CLONE_THREAD is the library's), and a round trip made from a thread-local destructor while its thread exits.",
         design_ref="DESIGN.md 6/C18", note=TRUST),
 }
